@@ -45,6 +45,8 @@ def _sig(inv, r):
         return "C09 %s ?" % inv
     if r["k"] == "pair":
         return "C09 %s pair %s" % (inv, r["tp"])
+    if r["k"] == "stage":
+        return "C09 %s stage %s" % (inv, r["stage"])
     b = r["b0"]
     ln = r["len"]
     lc = "<48" if ln < 48 else "48" if ln == 48 else ">48"
@@ -95,6 +97,14 @@ def run(ctx):
     pairs = ctx.emitted(res[3]["out"])
     if len(cases) < 20000 or len(pairs) < 300:
         raise vlib.Inconclusive("case generator produced only %d cases / %d pair cases" % (len(cases), len(pairs)))
+    # vacuity self-check: every stage of the pipeline at which the model drops a
+    # datagram, and acceptance, must occur among the generated cases on both transports
+    stages = {"none", "ntp.DecodePacket", "nts.DecodePacket:errNoUniqueID", "nts.DecodePacket:errNoAuthenticator",
+              "FirstCookie", "provider.Get", "EncryptedServerCookie.Decrypt", "nts.ProcessRequest", "ntp.ValidateRequest"}
+    for tp in ("ip", "scion"):
+        seen = {c["drop"] for c in cases if c["tp"] == tp}
+        if seen != stages:
+            raise vlib.Inconclusive("generated %s cases do not exercise the stages %s" % (tp, sorted(stages ^ seen)))
     cp, pp = ctx.path("cases.ndjson"), ctx.path("pairs.ndjson")
     vlib.write_ndjson(cp, cases)
     vlib.write_ndjson(pp, pairs)
@@ -103,10 +113,15 @@ def run(ctx):
     trace, out = ctx.godriver("c09", "TestC09", cases=cp, env={"VERIF_PAIRS": pp}, timeout=900)
     recs = vlib.read_ndjson(trace)
     ncase = sum(1 for r in recs if r["k"] == "case")
-    npair = len(recs) - ncase
+    npair = sum(1 for r in recs if r["k"] == "pair")
+    stage_recs = [r for r in recs if r["k"] == "stage"]
+    obs = [r for r in recs if r["k"] != "stage"]
     ctx.log("driver: %d case records (%d cases), %d pair records (%d pair cases)" % (ncase, len(cases), npair, len(pairs)))
     if not recs:
         raise vlib.Inconclusive("driver recorded nothing:\n" + out[-2000:])
+    retried = sum(1 for r in recs if r["k"] == "case" and r["tries"] > 1)
+    if retried:
+        ctx.notes.append("%d cases needed more than one attempt (sentinel reply not seen within 2 s)" % retried)
     kind = os.environ.get("VERIF_C09_CORRUPT")
     if kind:
         _corrupt(recs, kind)
@@ -132,6 +147,11 @@ def run(ctx):
             shutil.copytree(ctx.specdir(), sd)
         pm = ctx.path("mon.ndjson")
         vlib.write_ndjson(pm, rs)
+        # common case: one run with the monitor's and the strict invariants together;
+        # only if that fails are they run separately to tell VIOLATION from DRIFT
+        a = ctx.validate("ListenerTrace", "ListenerTrace_all.cfg", pm, timeout=900, workers=6)
+        if a[0]:
+            return a, a
 
         def strict():
             # same machinery as ctx.validate, in the second directory
@@ -162,7 +182,7 @@ def run(ctx):
     valid = [r for r in recs if r["k"] == "case" and r["n"] > 0]
     ctx.cov.update(
         evaluations=len(recs),
-        distinct_nontrivial=len({(r["k"], r["tp"], r["b0"], r["len"], r["tr"], r["pk"], r["src"]["h"]) for r in recs}),
+        distinct_nontrivial=len({(r["k"], r["tp"], r["b0"], r["len"], r["tr"], r["pk"], r["src"]["h"]) for r in obs}),
         rule="every first payload byte 0..255 x {0,1,47,48,49,75,76,1024,2048 and each trailer class's natural length} "
              "x 14 trailer classes (none, <28 bytes, unknown fields, uid only, no uid, no cookie, valid NTS, valid NTS with "
              "placeholders, bad tag, wrong key, altered header, unknown cookie key, altered cookie, data after authenticator) "
@@ -172,7 +192,9 @@ def run(ctx):
              % (("; 1/2/3-segment paths with 27 key first bytes" if q else ", 1/2/3-segment SCION paths"), "27 key" if q else "all 256"),
         traces_validated_against_impl=nval, exhaustive=True,
         replies_observed=len(valid),
-        samples=[_brief(r) for r in (valid[:2] + [r for r in recs if r["k"] == "pair"][:2] + recs[-1:])])
+        records_per_predicted_stage={st: sum(1 for r in obs if r["drop"] == st) for st in sorted(stages)},
+        stage_log_counts={r["stage"]: [r["logged"], r["predicted"]] for r in stage_recs},
+        samples=[_brief(r) for r in (valid[:2] + [r for r in recs if r["k"] == "pair"][:2] + obs[-1:])])
     ctx.assumptions += [
         "a datagram counts as the listener's answer to a case iff it reaches the sending socket before the reply to the "
         "sentinel request sent from the same socket right after the case (same 4-tuple => same SO_REUSEPORT listener, FIFO on loopback)",
@@ -188,6 +210,8 @@ def run(ctx):
 def _brief(r):
     if r is None:
         return "?"
+    if r["k"] == "stage":
+        return r
     if r["k"] == "pair":
         return {k: r[k] for k in ("k", "tp", "b0", "len", "tr", "src", "dst", "arecv", "brecv", "asrv", "bsrv", "exp")}
     d = {k: r[k] for k in ("k", "id", "tp", "b0", "len", "tr", "pk", "n", "sn", "tries", "exp", "drop")}
